@@ -54,7 +54,7 @@ func genSel(a hx.Args) {
 	n := a.N(90, 1500)
 	for i := 0; i < n; i++ {
 		mode := hx.Pick(r, []string{"n", "n", "r", "r", "r"})
-		hx.Emit("sel %d %s %d %d", r.U64()%1000000, mode, 14+r.Intn(14), r.Intn(1<<16))
+		hx.Emit("sel %d %s %d %d", r.U64()%1000000, mode, 16+r.Intn(14), r.Intn(1<<16))
 	}
 }
 
@@ -327,14 +327,18 @@ func runSel(t *testing.T, tk []string) string {
 			poll(time.Duration(30+rng.Intn(150)) * time.Millisecond)
 		}
 	}
-	// quiet end: a last producer round, several metadata ages, polls until four empty ones in a row
+	// quiet end: a producer round, three seconds of polls, a last producer round, then polls for at least three
+	// seconds and until four empty ones in a row
+	// (time-based: a poll returns at once while records are available, and the client retries a failed offset load --
+	// a pinned partition whose topic did not exist yet -- only after a one second back-off plus a metadata refresh)
 	produceAll()
-	for i := 0; i < 6; i++ {
+	for deadline := time.Now().Add(3 * time.Second); time.Now().Before(deadline); {
 		poll(250 * time.Millisecond)
 	}
 	produceAll()
 	empty := 0
-	for i := 0; empty < 4 && i < 200; i++ {
+	deadline := time.Now().Add(3 * time.Second)
+	for i := 0; (empty < 4 || time.Now().Before(deadline)) && i < 400; i++ {
 		if poll(300*time.Millisecond) == 0 {
 			empty++
 		} else {
